@@ -57,11 +57,13 @@ def op_strategies(typed=False, explicit_ids=True, fresh=False, valid_before_only
                      else st.tuples(st.just("add_node"), PREF, st.sampled_from([0, 0, 1]), REF, tri, B).map(list)),
         "copy_to": st.tuples(st.just("copy_to"), REF, PREF, st.sampled_from([True, True, False]), B, st.booleans()).map(list),
         "add_tree": st.tuples(st.just("add_tree"), PREF, B, tri).map(list),
+        # the shortcut methods with a whole tree as child
+        "shortcut_tree": st.tuples(st.just("shortcut_tree"), st.sampled_from(["append_child", "prepend_child", "prepend_sibling", "append_sibling"]), REF, tri).map(list),
         # the tree copied into itself (below one of its own nodes: valid; at top level: collides with itself)
         "add_own_tree": st.tuples(st.just("add_own_tree"), PREF, B, tri).map(list),
         "own_copy_to": st.tuples(st.just("own_copy_to"), PREF, tri).map(list),
-        # target -2 = the second tree (cross-tree move: refused), one time in ten
-        "move": st.tuples(st.just("move"), REF, st.tuples(st.integers(-1, 40), st.sampled_from([0] * 9 + [1])).map(lambda t: -2 if t[1] else t[0]), B).map(list),
+        # target -2 = the second tree, -3 = a node of the second tree (cross-tree moves: refused), one time in five
+        "move": st.tuples(st.just("move"), REF, st.tuples(st.integers(-1, 40), st.sampled_from([0] * 8 + [-2, -3])).map(lambda t: t[1] if t[1] else t[0]), B).map(list),
         "remove": st.tuples(st.just("remove"), REF, st.sampled_from([False, False, True]), st.sampled_from([False, False, True])).map(list),
         "remove_children": st.tuples(st.just("remove_children"), REF).map(list),
         "clear": st.just(["clear"]),
@@ -94,7 +96,7 @@ def _fix_meta(t):
 
 
 ALL_KINDS = ["add", "append_child", "prepend_child", "prepend_sibling", "append_sibling", "add_node", "copy_to",
-             "add_tree", "add_own_tree", "own_copy_to", "move", "remove", "remove_children", "clear", "del", "sort", "set_data", "rename", "meta", "filter"]
+             "add_tree", "shortcut_tree", "add_own_tree", "own_copy_to", "move", "remove", "remove_children", "clear", "del", "sort", "set_data", "rename", "meta", "filter"]
 
 PROFILES = {
     "all": ALL_KINDS,
@@ -103,7 +105,7 @@ PROFILES = {
     "clones": ["add", "add_node", "add_node", "copy_to", "remove", "set_data", "rename", "del"],
     "rekey": ["add", "add_node", "set_data", "set_data", "rename", "remove", "move"],
     "insert": ["add", "add", "append_child", "prepend_child", "prepend_sibling", "append_sibling", "sort", "meta"],
-    "bulk": ["add", "add_tree", "copy_to", "clear", "remove_children", "filter", "sort", "add_node", "add_own_tree", "own_copy_to"],
+    "bulk": ["add", "add_tree", "copy_to", "clear", "remove_children", "filter", "sort", "add_node", "add_own_tree", "own_copy_to", "shortcut_tree"],
 }
 
 
